@@ -6,11 +6,9 @@ From DV Require Import Run_C20 C20Scan C20ConnFacts C20P.
 Open Scope N_scope.
 
 (* The full property, as one statement about the functions the harness evaluates (exclusive,
-   bounded, once, never lost, bounded overtaking), plus its liveness reading over the model:
-   C20_no_starvation (defined in proofs/C20P.v: a waiting request is overtaken a bounded number of
-   times).  The model REFUTES the liveness part: see (7). *)
-Definition C20_full : Prop :=
-  (forall c, spec_C20 c (run_C20 c) = true) /\ C20_no_starvation.
+   bounded, once, never lost, bounded overtaking).  Still refuted by class 1 (6); every other part
+   is carried by the theorems below. *)
+Definition C20_full : Prop := forall c, spec_C20 c (run_C20 c) = true.
 
 (* (1) for EVERY history of requests, releases (by anybody, of anything, repeated) and receiver
    drops: the service's set of locked rooms has no duplicates, locked + free slots = the limit
@@ -39,12 +37,12 @@ Theorem C20_release_progress_partial : forall s who r p,
 Proof. exact release_progress. Qed.
 Print Assumptions C20_release_progress_partial.
 
-(* (4) exclusive, bounded, once, never lost (spec_core_lock: the service oracle without the
-   overtaking bound) hold on every service history outside the known class 1 = some release sent
-   by a connection that does not hold the room frees a locked room *)
+(* (4) the WHOLE service oracle (exclusive, bounded, once, never lost, bounded overtaking) holds on
+   every service history outside the known class 1 = some release sent by a connection that does
+   not hold the room frees a locked room *)
 Theorem C20_outside_known : forall max tr,
-  ~ In 1%Z (known_C20 (CLock max tr)) -> spec_core_lock max tr (run_lock max tr) = true.
-Proof. exact outside_known_class1. Qed.
+  known_C20 (CLock max tr) = [] -> spec_C20 (CLock max tr) (run_C20 (CLock max tr)) = true.
+Proof. exact outside_known_full. Qed.
 Print Assumptions C20_outside_known.
 
 Theorem C20_exclusive_bounded_unless_foreign_release : forall max tr,
@@ -60,9 +58,8 @@ Print Assumptions C20_exclusive_bounded_unless_foreign_release.
    more (former class 2, repaired by 2487a5d): they are released by the end of the connection. *)
 Theorem C20_conn_outside_known_partial : forall max es,
   known_C20 (CConn max es) = [] ->
-  foreign_lock max (conn_trace max es) = false /\
-  spec_core_lock max (conn_trace max es) (run_lock max (conn_trace max es)) = true.
-Proof. exact conn_benign_service_ok. Qed.
+  spec_C20 (CLock max (conn_trace max es)) (run_C20 (CLock max (conn_trace max es))) = true.
+Proof. exact conn_benign_service_full. Qed.
 Print Assumptions C20_conn_outside_known_partial.
 
 (* (5a) closing and draining the lock channel only releases rooms that connection holds: whatever
@@ -105,23 +102,36 @@ Theorem C20_refuted_conn :
 Proof. exact refuted_conn. Qed.
 Print Assumptions C20_refuted_conn.
 
-(* (7) "every requested room is eventually granted as long as granted rooms are released" is
-   REFUTED over the model (class 3): the rotation of acquire_lock re-queues a blocked waiter behind
-   the entries it has not examined.  With limit 2 and three connections (1 waits for room 5; 2 and 3
-   keep re-requesting the rooms 6 and 5 they are synchronising; 6 is always released before 5), every
-   release comes from the holder, connection 1 keeps its channel, and it is overtaken n times for
-   every n.  Replayed on the real service by the directed case "directed-K3-starvation". *)
-Theorem C20_starvation_witness : forall n,
-  foreign_lock 2 (starve_setup ++ rep n starve_cycle) = false /\
-  (exists p, In p (queue starve_state) /\ p_c p = 1 /\ In 5 (p_rooms p)) /\
-  (forall g, In g (concat (run_from starve_state (rep n starve_cycle))) -> cr g <> (1, 5)) /\
-  (forall k, ~ In (DropChan 1 k) (rep n starve_cycle)) /\
-  overtaken 1 5 (run_from starve_state (rep n starve_cycle)) = n.
-Proof. exact starvation_witness. Qed.
-Print Assumptions C20_starvation_witness.
-Theorem C20_starvation_refuted : ~ C20_no_starvation.
-Proof. exact starvation_refuted. Qed.
-Print Assumptions C20_starvation_refuted.
+(* (7) the liveness half, "every requested room is eventually granted as long as granted rooms are
+   released", as bounded overtaking (commit 11e9468: peers that cannot be served keep their place):
+   while connection c waits for room r on live channels and is granted nothing, room r is given to
+   other connections at most as many times as there are entries before c's in the queue — for every
+   state, every continuation of any length, any limit.  `stands c r s n`: the first entry of c in the
+   queue of s wants r and has at most n entries before it. *)
+Theorem C20_bounded_overtaking : forall tr c r s n,
+  stands c r s n -> untainted c (dead s) -> (forall m, In m tr -> not_drop_of c m) ->
+  (forall g, In g (concat (run_from s tr)) -> to_c c g = false) ->
+  (overtaken c r (run_from s tr) <= n)%nat.
+Proof. exact bounded_overtaking. Qed.
+Print Assumptions C20_bounded_overtaking.
+
+(* (7') the overtaking bound the oracle uses (a waiting request of a connection whose channels are all
+   alive is overtaken at most `number of requesting connections` times between two grants to that
+   connection) holds on what the model observes for EVERY history, whatever the order in which the
+   grants of one message are observed: the oracle's bound is a theorem, not a calibration *)
+Theorem C20_overtaking_oracle_holds : forall max tr, bypass_ok tr (run_lock max tr) = true.
+Proof. exact overtaking_oracle_holds. Qed.
+Print Assumptions C20_overtaking_oracle_holds.
+
+(* (7a) the schedule that starved connection 1 before 11e9468 (former class 3): it is now served by
+   the first release of its room, and the whole oracle holds on the history *)
+Theorem C20_former_starvation_schedule_holds :
+  spec_C20 starve_case (run_C20 starve_case) = true /\ known_C20 starve_case = [] /\
+  run_from (init 2) [Request 3 [5] 0; Request 2 [6] 0; Request 1 [5] 0; Request 2 [6] 0; Request 3 [5] 0;
+                     Unlock 2 6; Request 2 [6] 0; Unlock 3 5] =
+    [[(3, 0, 5)]; [(2, 0, 6)]; []; []; []; [(2, 0, 6)]; []; [(1, 0, 5)]].
+Proof. exact former_starvation_schedule. Qed.
+Print Assumptions C20_former_starvation_schedule_holds.
 
 Example C20_nonvacuous_ex : known_C20 ok_witness = [] /\
   run_from (init 2) [Request 1 [5; 6; 7] 0; Request 2 [5; 6] 0; Unlock 1 7; Unlock 1 6; Unlock 3 9; Unlock 1 5; Unlock 2 6; DropChan 2 0; Unlock 2 5] =
